@@ -305,6 +305,8 @@ type GraphProg struct {
 	Config  bool    `json:"config,omitempty"` // bind slot V0 of every node from configuration (value tag)
 	Full    bool    `json:"full,omitempty"`   // add two loaders, two runners, a scanner and a factory post-processor (fault sites)
 	Extra   []Extra `json:"extra,omitempty"`  // additional unsatisfiable points
+	// Attach builds additional harness components that need the execution's runtime.
+	Attach func(rt *RT) []any `json:"-"`
 }
 
 // Extra is an additional injection point / configuration value that cannot be satisfied.
@@ -543,6 +545,9 @@ func RunGraph(p *GraphProg, ch *envx.Chooser) *GraphObs {
 		comps = append(comps, o.Comps...)
 	}
 	comps = append(comps, NewTagScanner(tags))
+	if p.Attach != nil {
+		comps = append(comps, p.Attach(rt)...)
+	}
 	var opts []app.SettingOption
 	if p.Config {
 		vt := map[string]map[string]string{}
